@@ -370,6 +370,7 @@ def run(ctx):
     from . import c12 as c12q
     subq = SubCtx(ctx, 'C05.quant', 'a routine started from a routine begins at its parent\'s logical time unless a quant moves it: the quant conversion, as decided for C12')
     c12q.rule_quant(subq)
+    c12q.rule_play(subq)     # the grid time itself: at or after the reference beat for every phase (seed C05-i)
     from . import c12
     sub_c12 = SubCtx(ctx, 'C05.beats', 'a routine converts its deltas through the beats/seconds map of its clock: the affine map and its readers, as decided for C12')
     c12.rule_affine(sub_c12)
@@ -387,6 +388,9 @@ def run(ctx):
 
 
 MUTANTS = [
+    dict(rule='C05.quant', name='a negative phase is wrapped for the rounding but added raw: the grid time lies before the reference beat (seed C05-i)', file='sc3/base/clock.py',
+         old="        if phase < 0:\n            phase = bi.mod(phase, quant)\n\n        return bi.roundup(\n            refbeat - self._base_bar_beat - bi.mod(phase, quant),\n            quant\n        ) + self._base_bar_beat + phase",
+         new="        offset = bi.mod(phase, quant)\n\n        return bi.roundup(\n            refbeat - self._base_bar_beat - offset, quant\n        ) + self._base_bar_beat + phase"),
     dict(rule='C05.queue', name='queue re-insertion updates the entry in place (seeds C08-e, C05-f)', file='sc3/base/_taskq.py',
          old="        if task in self._entry_finder:\n            self.remove(task)\n        count = next(self._counter)\n        entry = [prio, count, task]\n        self._entry_finder[task] = entry\n        heapq.heappush(self._queue, entry)",
          new="        count = next(self._counter)\n        if task in self._entry_finder:\n            entry = self._entry_finder[task]\n            entry[0] = prio\n            entry[1] = count\n            return\n        entry = [prio, count, task]\n        self._entry_finder[task] = entry\n        heapq.heappush(self._queue, entry)"),
